@@ -164,6 +164,7 @@ def check(program: Program, run: Run) -> None:
     run.rule("R5 (inherited from C08/R1) no name-bearing child is formatted with str()/format instead of get_sql(ctx): it would be quoted with the default context's characters")
     run.rule("R4 every row-source slot (FROM item, UPDATE target, joined item) writes the table's alias exactly once: column qualifiers refer to it")
     fsk = function_skeletons(program)
+    sel_cls = program.find_cls("Selectable")
     n_sites = 0
     raw_seen = set()
     quote_sites = {}     # site label -> quote expr V
@@ -192,6 +193,13 @@ def check(program: Program, run: Run) -> None:
                         unescaped += 1
                     continue
                 seen_sites.add((site, bool(inside)))
+                if not inside and sel_cls is not None and c.is_subclass_of(sel_cls) and i + 1 < len(flat) and isinstance(flat[i + 1], Lit) and flat[i + 1].text.startswith("("):
+                    # `<name>(` in a row source: a function call (function names are not identifiers of the statement).  The
+                    # name may still serve as the correlation name its columns are qualified with: then this very path has
+                    # to write that name -- or the alias that replaces it -- between identifier quotes as well
+                    quoted_here = any(a2 in (a, "alias") and any(sp_[0] < i2 < sp_[1] for sp_ in spans) for i2, a2, _s2 in holes if i2 != i)
+                    if quoted_here:
+                        continue
                 if not inside:
                     key = f"C07/raw-name:{site}"
                     run.ob("C07/R1 name emitted between identifier quotes", site, False, detail=s, where=f"{p.src[2]}:{p.src[1]}" if p.src else "")
